@@ -27,9 +27,24 @@ C14_PROFILES = ("zero", "uniform", "per_sim", "heavy", "slow_req", "ties", "slow
 
 def make_case(seed: int, tier: str, prop: str, opts=None) -> Dict[str, Any]:
     rng = random.Random(h64(seed, "c14"))
-    sc = gen.gen_core(seed, tier, transport_mix="mixed", max_sims=4)
-    if len(sc["sims"]) < 2:
-        sc = gen.gen_core(h64(seed, "again"), tier, transport_mix="mixed", max_sims=4)
+    if rng.random() < 0.25:
+        # plant + agents issuing set_data/get_data requests while they are stepped (requests of
+        # the simulators themselves are in flight when the fault strikes)
+        sc = gen.gen_async(seed, tier)
+        sc.pop("illegal_async", None)
+        for s in sc["sims"]:
+            calls = s["beh"].get("async_calls")
+            if calls:
+                s["beh"]["async_calls"] = [c for c in calls if not c.get("illegal")]
+        for c in sc["conns"]:
+            if "async" in c and c["async"] is False:
+                c["async"] = True
+        sc["sims"] = sc["sims"][:4]
+        sc["conns"] = [c for c in sc["conns"] if c["src"] < 4 and c["dst"] < 4]
+    else:
+        sc = gen.gen_core(seed, tier, transport_mix="mixed", max_sims=4)
+        if len(sc["sims"]) < 2:
+            sc = gen.gen_core(h64(seed, "again"), tier, transport_mix="mixed", max_sims=4)
     sc["config"]["debug"] = False
     sc["config"]["iteration_cost"] = 0.0
     sc["until"] = min(sc["until"], 5)
@@ -115,6 +130,10 @@ def check_one(sc, sp, f, last_req=None):
         if not any(h[0] == "log" and h[1] in ("ERROR", "CRITICAL") for h in hist):
             viols.append({"kind": "failure_swallowed", "features": feats,
                           "detail": {"fault": f, "outcome": list(oc)}})
+    # survivors whose own request to mosaik (set_data/get_data from inside a step) is unanswered:
+    # they started that step from a request that was still in flight when mosaik shut down
+    answered = {h[3] for h in hist if h[0] in ("async_done", "async_err")}
+    stuck = {h[1] for i, h in enumerate(hist) if h[0] == "async_call" and i not in answered}
     if True:
         # (3) every other simulator stopped exactly once
         for s in sc["sims"]:
@@ -131,7 +150,8 @@ def check_one(sc, sp, f, last_req=None):
                 stops = sum(1 for h in hist if h[0] == "stop" and h[1] == o)
                 if stops != 1:
                     viols.append({"kind": "survivor_not_stopped_once",
-                                  "features": dict(feats, survivor="remote", count=min(stops, 2)),
+                                  "features": dict(feats, survivor="remote", count=min(stops, 2),
+                                                   stuck_in_own_request=o in stuck),
                                   "detail": {"fault": f, "survivor": o, "stop_frames": stops,
                                              "finalize_calls": fin}})
         # (4) nothing left behind
@@ -141,7 +161,8 @@ def check_one(sc, sp, f, last_req=None):
                                      "shutdown": [h for h in hist if h[0] in ("shutdown_exc", "shutdown_stuck")]}})
         left = [h[1] for h in hist if h[0] == "node_left_behind"]
         if left:
-            viols.append({"kind": "process_left_behind", "features": feats,
+            viols.append({"kind": "process_left_behind",
+                          "features": dict(feats, stuck_in_own_request=all(x in stuck for x in left)),
                           "detail": {"fault": f, "nodes": left}})
         open_tr = []
         for n in r.run.all_nodes:
